@@ -83,6 +83,7 @@ def strOps (exact : Bool) : Ops String where
   mergeMedia := fun a b => a ++ " and " ++ b
   concat := String.join
   isHash := fun t => t.startsWith "#"
+  isSourceMap := fun t => t.startsWith "# sourceMappingURL=" || t.startsWith "# sourceURL="
 
 open Proto
 
